@@ -11,7 +11,7 @@ PROPERTY = 'C13'
 LEVEL = 'exploration'
 RULE = ('three Hypothesis sub-checks.  bases: abscissae in [-1,1] (arrays of 1-60 values, float32/float64, Python/NumPy scalars, end points and '
         '0), orders 1-12, flegendre/fchebyshev/fpoly/fchebyshev_split vs numpy.polynomial and x**k.  func_fit: 8-80 points, ncoeff 1-8, all '
-        'function names, invvar with random zeros (>= ncoeff+2 good points), ia masks with 0..ncoeff-1 fixed coefficients, a FULL inputans '
+        'function names, invvar with random zeros (>= ncoeff+2 good points), ia masks with 0..ncoeff (all) fixed coefficients, a FULL inputans '
         'vector (non-zero also at free slots), optional inputfunc; oracle numpy.linalg.lstsq on the weighted, fixed-part-subtracted system; '
         'zero-weight invariance; exact basis combinations recovered.  trace sets: 1-5 traces x 10-80 pixels, per-trace abscissae that share '
         'end points but differ in the interior, exact basis combinations or noisy data, ncoeff 2-6, optional xmin/xmax, optional jump: '
@@ -97,7 +97,7 @@ def fit_case(draw):
     nz = max(0, min(nz, n - 2))      # a single good point is func_fit's constant special case (inherited from IDL), not a fit
     zeros = draw(st.lists(st.integers(0, n - 1), min_size=nz, max_size=nz, unique=True)) if nz else []
     use_ia = draw(st.sampled_from([True, True, False]))
-    nfix = draw(st.integers(0, nc - 1)) if use_ia else 0
+    nfix = draw(st.one_of(st.integers(0, nc), st.integers(0, nc - 1), st.just(nc))) if use_ia else 0
     fixed = draw(st.lists(st.integers(0, nc - 1), min_size=nfix, max_size=nfix, unique=True))
     return dict(n=n, nc=nc, fn=fn, x=x, zeros=zeros, use_ia=use_ia, fixed=fixed, inputans=[2 * draw(uf) for _ in range(nc)],
                 truth=[2 * draw(uf) for _ in range(nc)], ykind=draw(st.sampled_from(['exact', 'noisy', 'noisy'])),
